@@ -5,7 +5,7 @@ package store
 // C10 correspondence driver: histories on a real CAStore (LRU file map of capacity 1..8 or the
 // default, mock clock, data mtimes set with os.Chtimes) mixing file creation, reads, stats,
 // persist/LAT sidecar changes, explicit deletes, store re-opens, and the real cleanup code
-// (cleanupManager.cleanup / ttlBasedCleanup / customPolicyBasedCleanup with an injected disk
+// (cleanupManager.addJob with its ticker / cleanup / ttlBasedCleanup / customPolicyBasedCleanup with an injected disk
 // usage and a recording FileOp wrapper that can also force the list of scanned names), plus the
 // real blobserver.maybeDelete (through the external half of the driver, zz_verif_c10_x_test.go). After every operation the driver records the result,
 // the files on disk with their sidecars (read raw, not through the store) and the names in the
@@ -23,6 +23,7 @@ import (
 	"strconv"
 	"strings"
 	"sync"
+	"sync/atomic"
 	"testing"
 	"time"
 
@@ -150,6 +151,10 @@ func (o *c10op) coq() string {
 		c := o.cfg
 		return fmt.Sprintf("Cleanup (mkcfg %s %s %s %s %s %s) %s %s %s %s", c10z(c.interval), c10z(c.tti), c10z(c.ttl),
 			c10z(c.athr), c10z(c.attl), c10z(c.alow), verifhlib.B(o.flag), c10us(o.usage), c10ns(o.scan), c10ns(o.order))
+	case "job":
+		c := o.cfg
+		return fmt.Sprintf("Job (mkcfg %s %s %s %s %s %s) %s %s %s %s %s", c10z(c.interval), c10z(c.tti), c10z(c.ttl),
+			c10z(c.athr), c10z(c.attl), c10z(c.alow), verifhlib.B(o.flag), c10z(o.a), c10us(o.usage), c10ns(o.scan), c10ns(o.order))
 	case "force":
 		bs := make([]string, len(o.wb))
 		for i, b := range o.wb {
@@ -282,6 +287,7 @@ func (e *c10env) mapNames() []int {
 // force the list of names (a stale or partial listing = a pass interleaved with other clients).
 type c10fileop struct {
 	base.FileOp
+	closed atomic.Bool // set when the pass is over: a late tick of a stopped job must not touch the store
 	useF   bool
 	forced []string
 	scan   []string
@@ -289,6 +295,9 @@ type c10fileop struct {
 }
 
 func (w *c10fileop) ListNames() ([]string, error) {
+	if w.closed.Load() {
+		return nil, errors.New("pass is over")
+	}
 	if w.useF {
 		w.scan = append([]string(nil), w.forced...)
 		return append([]string(nil), w.forced...), nil
@@ -322,6 +331,31 @@ func (e *c10env) ids(names []string) []int {
 		out = append(out, id)
 	}
 	return out
+}
+
+func (c c10cfg) real(disabled bool) CleanupConfig {
+	return CleanupConfig{Disabled: disabled, Interval: time.Duration(c.interval), TTI: time.Duration(c.tti), TTL: time.Duration(c.ttl),
+		AggressiveThreshold: int(c.athr), AggressiveTTL: time.Duration(c.attl), AggressiveLowerThreshold: int(c.alow)}
+}
+
+// usageStable records the real disk usage read before the pass as the environment's answer and
+// marks the case inconclusive when it changed in a way that could change the pass.
+func (e *c10env) usageStable(o *c10op, u1 diskspaceutil.UsageInfo, err1 error) {
+	u2, err2 := diskspaceutil.Usage()
+	if err1 != nil || err2 != nil || u1.Util != u2.Util || u1.TotalBytes != u2.TotalBytes {
+		e.incon = "disk usage changed during the pass"
+	}
+	if o.cfg.alow > 0 {
+		// ttl mode compares used bytes with the lower threshold: require a clear margin
+		low := u1.TotalBytes * uint64(o.cfg.alow) / 100
+		const margin = uint64(1) << 26
+		above := func(u uint64) bool { return u > low+margin }
+		below := func(u uint64) bool { return u+margin <= low }
+		if !(above(u1.UsedBytes) && above(u2.UsedBytes)) && !(below(u1.UsedBytes) && below(u2.UsedBytes)) {
+			e.incon = "disk usage too close to the lower threshold"
+		}
+	}
+	o.usage = &c10usage{int64(u1.Util), int64(u1.TotalBytes), int64(u1.UsedBytes)}
 }
 
 func c10usageFn(u *c10usage) diskUsageFn {
@@ -397,31 +431,49 @@ func (e *c10env) exec(o *c10op) string {
 		// to the model; the case is inconclusive when the answer is not stable around the call
 		u1, err1 := diskspaceutil.Usage()
 		w := e.wrap(o)
-		c := o.cfg
-		cc := CleanupConfig{Interval: time.Duration(c.interval), TTI: time.Duration(c.tti), TTL: time.Duration(c.ttl),
-			AggressiveThreshold: int(c.athr), AggressiveTTL: time.Duration(c.attl), AggressiveLowerThreshold: int(c.alow)}
 		var pol func(a, b fInfo) int
 		if o.flag {
 			pol = cachedInAgentPolicy
 		}
-		_, err := e.cas.cleanup.cleanup(w, cc, pol)
-		u2, err2 := diskspaceutil.Usage()
-		if err1 != nil || err2 != nil || u1.Util != u2.Util || u1.TotalBytes != u2.TotalBytes {
-			e.incon = "disk usage changed during the pass"
-		}
-		if c.alow > 0 {
-			// ttl mode compares used bytes with the lower threshold: require a clear margin
-			low := u1.TotalBytes * uint64(c.alow) / 100
-			const margin = uint64(1) << 26
-			above := func(u uint64) bool { return u > low+margin }
-			below := func(u uint64) bool { return u+margin <= low }
-			if !(above(u1.UsedBytes) && above(u2.UsedBytes)) && !(below(u1.UsedBytes) && below(u2.UsedBytes)) {
-				e.incon = "disk usage too close to the lower threshold"
-			}
-		}
-		o.usage = &c10usage{int64(u1.Util), int64(u1.TotalBytes), int64(u1.UsedBytes)}
+		_, err := e.cas.cleanup.cleanup(w, o.cfg.real(false), pol)
+		e.usageStable(o, u1, err1)
 		o.scan, o.order = e.ids(w.scan), e.ids(w.dels)
 		return "OPass true " + verifhlib.B(err != nil)
+	case "job":
+		// the periodic job itself: addJob on a fresh manager sharing the store's clock, the clock
+		// advances by o.a (exactly one period, or just short of it), the job is stopped. The end of
+		// the pass is observed through the disk_usage gauge the job updates after each run.
+		u1, err1 := diskspaceutil.Usage()
+		scope := tally.NewTestScope("", nil)
+		m := newCleanupManager(e.clk, scope)
+		w := e.wrap(o)
+		cc := o.cfg.real(o.flag)
+		m.addJob("cache", cc, w)
+		fires := !o.flag && o.a >= int64(cc.applyDefaults().Interval)
+		e.clk.Add(time.Duration(o.a))
+		if fires {
+			done := false
+			for i := 0; i < 20000 && !done; i++ {
+				for _, g := range scope.Snapshot().Gauges() {
+					if g.Name() == "disk_usage" {
+						done = true
+					}
+				}
+				if !done {
+					time.Sleep(500 * time.Microsecond)
+				}
+			}
+			if !done {
+				e.incon = "periodic job did not finish"
+			}
+		} else {
+			time.Sleep(2 * time.Millisecond)
+		}
+		w.closed.Store(true)
+		m.stop()
+		e.usageStable(o, u1, err1)
+		o.scan, o.order = e.ids(w.scan), e.ids(w.dels)
+		return "OPass true false"
 	case "force":
 		if VerifC10MaybeDelete == nil {
 			panic("c10: external half of the driver is missing")
@@ -564,12 +616,26 @@ func c10gen(r *verifhlib.Rng, p c10params, snap []c10file, now int64) *c10op {
 		}
 		c10forced(r, o, snap)
 		return o
-	case x < 95:
+	case x < 93:
 		c := c10cfg{tti: p.tti, ttl: p.ttl,
 			athr: c10pick(r, []int64{0, 0, 0, 1, 1, 100, 101}),
 			attl: c10pick(r, []int64{0, c10NS, p.ttl / 2, p.ttl}),
 			alow: c10pick(r, []int64{0, 0, 1, 99, 100})}
 		o := &c10op{kind: "cleanup", cfg: c, flag: r.Chance(60)}
+		c10forced(r, o, snap)
+		return o
+	case x < 96:
+		// the periodic job: small explicit interval or the 30 min default; tti possibly defaulted
+		c := c10cfg{interval: c10pick(r, []int64{0, 10 * c10NS, 60 * c10NS}), tti: c10pick(r, []int64{p.tti, p.tti, 0}), ttl: p.ttl,
+			athr: c10pick(r, []int64{0, 0, 0, 1, 101}), attl: c10pick(r, []int64{0, c10NS, p.ttl}), alow: c10pick(r, []int64{0, 0, 99, 100})}
+		period := c.interval
+		if period == 0 {
+			period = 30 * c10Min
+		}
+		o := &c10op{kind: "job", cfg: c, flag: r.Chance(12), a: period}
+		if r.Chance(15) {
+			o.a = period - 1
+		}
 		c10forced(r, o, snap)
 		return o
 	default:
@@ -626,7 +692,7 @@ func c10run(dir string, p c10params, fixed []*c10op, r *verifhlib.Rng) verifhlib
 		if len(snap) < len(before) || strings.Contains(out, "RPersisted") {
 			nt = true
 		}
-		if o.kind == "ttl" || o.kind == "policy" || o.kind == "cleanup" {
+		if o.kind == "ttl" || o.kind == "policy" || o.kind == "cleanup" || o.kind == "job" {
 			for _, f := range before {
 				if f.hasP && f.p {
 					nt = true
@@ -699,6 +765,10 @@ func c10seeds() []struct {
 			T(299 * c10NS), {kind: "read", n: 0}, ttl(299*c10NS, 0), T(1 * c10NS), ttl(299*c10NS, 0)}},
 		// sub-second clock: LAT truncation
 		{c10params{capCfg: 0, kind: "seed-subsecond"}, []*c10op{T(900000000), C(0, 10, 0), T(200000000), ttl(c10NS, 0), T(900000000), ttl(c10NS, 0)}},
+		// the periodic job with defaults: idle limit 6 h, period 30 min; not fired one ns early; disabled
+		{c10params{capCfg: 0, kind: "seed-job"}, []*c10op{C(0, 10, 0), C(1, 10, 0), P(1, true), T(6*c10Hr - 30*c10Min),
+			{kind: "job", a: 30*c10Min - 1}, {kind: "job", a: 1, flag: true}, {kind: "job", a: 30 * c10Min}, {kind: "job", a: 30 * c10Min},
+			C(2, 10, 0), {kind: "job", cfg: c10cfg{interval: 10 * c10NS, tti: 5 * c10NS}, a: 10 * c10NS}}},
 		// lower threshold in ttl mode: stop deleting once used - scanned <= low
 		{c10params{capCfg: 0, kind: "seed-lowthr"}, []*c10op{C(0, 10, 0), C(1, 10, 0), C(2, 10, 0), T(2 * c10Hr),
 			{kind: "ttl", tti: c10Hr, ttl: c10Hr, thr: 50, usage: &c10usage{util: 95, total: 1000, used: 515}}}},
@@ -708,7 +778,7 @@ func c10seeds() []struct {
 		now := c10T0
 		for _, o := range s.ops {
 			switch o.kind {
-			case "tick":
+			case "tick", "job":
 				now += o.a
 			case "create":
 				o.b = now + o.b
